@@ -1,7 +1,8 @@
 import Got.Model.Atomics
+import Got.Spec.Atomics
 import Got.Lemmas.Atomics
 /- property theorems of C17 (only theorems + non-vacuity examples live here) -/
-open Got.Model.Atomics Got.Lemmas.Atomics
+open Got.Model.Atomics Got.Spec.Atomics Got.Lemmas.Atomics
 
 /-! ## TryLock excludes -/
 
